@@ -134,11 +134,107 @@ class _Deferred:
         return getattr(self.inner, name)
 
 
+def cvc5_accepts(path):
+    import subprocess
+    p = subprocess.run(['cvc5', '--parse-only', '--lang=smt2', path],
+                       capture_output=True, text=True, timeout=120)
+    return p.returncode == 0, (p.stdout + p.stderr)[:400]
+
+
+def consequence(ns, res, r, script, origin, scratch, budget_left):
+    """The consequence clause: replacing a term by a default constant, an
+    existing variable, a child or a fresh variable 'of the same sort' gives a
+    well-sorted script.  Reference: cvc5's own sort checker."""
+    import os
+    nested = [c for c in script.nested() if c[0] not in (
+        'check-sat', 'check-sat-assuming', 'get-model', 'exit')]
+    text = refreader.render(nested)
+    path = os.path.join(scratch, 'c.smt2')
+    with open(path, 'w') as f:
+        f.write(text)
+    ok, _ = cvc5_accepts(path)
+    if not ok:
+        res.count('consequence_scripts_rejected_by_reference')
+        return budget_left
+    exprs = list(ns.nodeio.parse_smtlib(text))
+    ns.smtlib.collect_information(exprs)
+    muts = [('Constants', ns.mutators_core.Constants()),
+            ('ReplaceByVariable', ns.mutators_core.ReplaceByVariable()),
+            ('ReplaceByChild', ns.mutators_core.ReplaceByChild()),
+            ('IntroduceFreshVariable',
+             ns.mutators_smtlib.IntroduceFreshVariable())]
+    positions = [p for p, _ in script.positions()
+                 if script.nested()[p[0]][0] == 'assert']
+    r.shuffle(positions)
+    for path_ in positions[:6]:
+        node = node_at(exprs, path_)
+        for mname, m in muts:
+            try:
+                if not m.filter(node):
+                    continue
+                if ns.smtlib.get_sort(node) is None:
+                    # ReplaceByChild also tries children when both sorts are
+                    # unknown; no 'same sort' is claimed then
+                    res.count('consequence_unknown_sort_not_judged')
+                    continue
+                props = list(m.mutations(node)) if hasattr(
+                    m, 'mutations') else list(m.global_mutations(node, exprs))
+            except Exception:  # noqa
+                continue
+            for simp in props[:2]:
+                if budget_left <= 0:
+                    return budget_left
+                budget_left -= 1
+                cand = ns.mutator_utils.apply_simp(exprs, simp)
+                ctext = ns.nodeio.write_smtlib_to_str(cand)
+                with open(path, 'w') as f:
+                    f.write(ctext)
+                ok, msg = cvc5_accepts(path)
+                res.count('evaluations')
+                res.count('consequence_candidates_sort_checked')
+                if ok:
+                    continue
+                if 'not declared' in msg or 'previously declared' in msg \
+                        or 'already' in msg:
+                    res.count('consequence_scope_errors_ignored')
+                    continue
+                res.violation(
+                    f'ill-sorted-replacement:{mname}',
+                    f'{mname} replaces {str(node)[:80]} by a term "of the '
+                    f'same sort", but the reference sort checker rejects '
+                    f'the result: {msg.strip()[:160]}', {
+                        'script': text,
+                        'candidate': ctext,
+                        'term': str(node)[:300],
+                        'mutator': mname,
+                        'reference_message': msg
+                    })
+    return budget_left
+
+
 def shard(args):
     from vlib import dd
     ns = dd.load()
     res = common.ShardResult()
     r = common.rng('c16', args['shard'])
+    if args.get('kind') == 'consequence':
+        scratch = common.scratch_dir('c16')
+        left = args['budget']
+        try:
+            i = 0
+            while left > 0 and i < 400:
+                i += 1
+                script = gen_smt.random_script(
+                    r, theories=['core'] + r.sample(
+                        ['ints', 'reals', 'bv', 'fp', 'strings', 'arrays',
+                         'dt', 'uf', 'let'], r.randint(1, 4)),
+                    nasserts=r.randint(1, 3), depth=r.randint(1, 3))
+                left = consequence(ns, res, r, script, f'{args["shard"]}:{i}',
+                                   scratch, left)
+        finally:
+            import shutil
+            shutil.rmtree(scratch, ignore_errors=True)
+        return res.to_dict()
     for i in range(args['n']):
         script = gen_smt.random_script(r, max_bv=r.choice([4, 8, 8, 16]))
         npos = check_script(ns, res, script, f'{args["shard"]}:{i}')
@@ -153,6 +249,9 @@ def shard(args):
 def run(ctx):
     n = 200 if ctx.tier == 'quick' else 100000
     shards = [{'shard': i, 'n': n} for i in range(common.NCPU)]
+    shards += [{'shard': 100 + i, 'kind': 'consequence',
+                'budget': 60 if ctx.tier == 'quick' else 1500}
+               for i in range(common.NCPU)]
     results = common.run_shards('checks.c16', shards, timeout=3000)
     common.merge_shards(ctx, results)
     ctx.rule = (
@@ -161,7 +260,9 @@ def run(ctx):
         'define-fun, annotations), every symbol bound once; evaluations = '
         'term positions at which get_sort and get_bv_width were compared '
         'with the generator typing; distinct non-trivial = distinct scripts '
-        'with >= 3 term positions')
+        'with >= 3 term positions; consequence clause: results of '
+        'Constants / ReplaceByVariable / ReplaceByChild / '
+        'IntroduceFreshVariable proposals are sort-checked by cvc5')
     ctx.assumptions = [
         'gen_smt typing is the ground truth (scripts validated against z3 '
         'and cvc5 in the self-test)',
